@@ -2,6 +2,7 @@ package main
 
 import (
 	"fmt"
+	"go/ast"
 	"go/token"
 	"go/types"
 	"os"
@@ -24,8 +25,8 @@ const modPath = "github.com/wi1dcard/fingerproxy"
 type LoadCfg struct {
 	Name    string
 	Dir     string
-	Deep    bool     // LoadAllSyntax: one type universe, dependency bodies available
-	Tags    string   // build tags
+	Deep    bool   // LoadAllSyntax: one type universe, dependency bodies available
+	Tags    string // build tags
 	GOOS    string
 	GOARCH  string
 	Overlay map[string][]byte
@@ -37,18 +38,19 @@ type LoadCfg struct {
 }
 
 type Ctx struct {
-	Cfg     LoadCfg
-	Fset    *token.FileSet
-	Pkgs    []*packages.Package
-	ByPath  map[string]*packages.Package
-	Prog    *ssa.Program
-	Funcs   []*ssa.Function // all functions with bodies in module packages (incl. anonymous)
-	RefFuncs []*ssa.Function // functions of the virtual reference packages (upstream copies)
-	Built   map[*ssa.Package]bool
-	cg      *callgraph.Graph
-	ModMode string
-	Stats   map[string]any
-	parentOf map[*ssa.Function]*ssa.MakeClosure
+	Cfg         LoadCfg
+	Fset        *token.FileSet
+	Pkgs        []*packages.Package
+	ByPath      map[string]*packages.Package
+	Prog        *ssa.Program
+	Funcs       []*ssa.Function // all functions with bodies in module packages (incl. anonymous)
+	RefFuncs    []*ssa.Function // functions of the virtual reference packages (upstream copies)
+	Built       map[*ssa.Package]bool
+	cg          *callgraph.Graph
+	ModMode     string
+	Stats       map[string]any
+	parentOf    map[*ssa.Function]*ssa.MakeClosure
+	InlineNotes []string
 }
 
 var depBuild = []string{
@@ -123,7 +125,100 @@ func loadOnce(cfg LoadCfg, modFlag string) ([]*packages.Package, *token.FileSet,
 	return pkgs, fset, err
 }
 
+// Load loads the configuration and, when the tree declares functions that are not in the reviewed table, expands their
+// call sites in place (inline.go) and reloads, so that rules see the statements where the reviewed tree had them.
 func Load(cfg LoadCfg) (*Ctx, error) {
+	c, err := loadRaw(cfg)
+	if err != nil {
+		return nil, err
+	}
+	known := loadKnownFuncs()
+	if known == nil || os.Getenv("FPCHECK_NO_INLINE") != "" {
+		return c, nil
+	}
+	seq := 0
+	var notes []string
+	for round := 0; round < 5; round++ {
+		ov, ns := inlineNewHelpers(c, known, &seq)
+		notes = append(notes, ns...)
+		if len(ov) == 0 {
+			break
+		}
+		cfg2 := c.Cfg
+		cfg2.Overlay = map[string][]byte{}
+		for k, v := range c.Cfg.Overlay {
+			cfg2.Overlay[k] = v
+		}
+		for k, v := range ov {
+			cfg2.Overlay[k] = v
+		}
+		c2, err := loadRaw(cfg2)
+		if err != nil {
+			notes = append(notes, fmt.Sprintf("expansion of new helpers abandoned in round %d (the expanded source does not load: %.300s); analysing the tree as it is", round+1, err.Error()))
+			if os.Getenv("FPCHECK_DEBUG_INLINE") != "" {
+				for k, v := range ov {
+					os.WriteFile("/tmp/fpinline_"+filepath.Base(k), v, 0o644)
+				}
+			}
+			break
+		}
+		c = c2
+	}
+	c.InlineNotes = uniq(notes)
+	if seq > 0 {
+		dropUnreferencedNewFuncs(c, known)
+	}
+	return c, nil
+}
+
+// dropUnreferencedNewFuncs removes from the analysed function set those new helpers whose every call was expanded in
+// place: nothing refers to them any more, they are dead code in the analysed program.
+func dropUnreferencedNewFuncs(c *Ctx, known map[string]bool) {
+	dead := map[types.Object]bool{}
+	for _, p := range c.Pkgs {
+		if !(p.PkgPath == modPath || strings.HasPrefix(p.PkgPath, modPath+"/")) || p.TypesInfo == nil {
+			continue
+		}
+		cand := map[types.Object]string{}
+		for _, f := range p.Syntax {
+			rel, err := filepath.Rel(c.Cfg.Dir, filepath.Dir(c.Fset.Position(f.Pos()).Filename))
+			if err != nil {
+				continue
+			}
+			for _, d := range f.Decls {
+				if fd, ok := d.(*ast.FuncDecl); ok && fd.Body != nil && !known[funcDeclKey(rel, fd)] && !fd.Name.IsExported() {
+					if o := p.TypesInfo.Defs[fd.Name]; o != nil {
+						cand[o] = funcDeclKey(rel, fd)
+					}
+				}
+			}
+		}
+		for _, o := range p.TypesInfo.Uses {
+			delete(cand, o)
+		}
+		for o, k := range cand {
+			dead[o] = true
+			c.InlineNotes = append(c.InlineNotes, "new function "+k+" has no remaining reference after expansion and is left out of the analysed set")
+		}
+	}
+	if len(dead) == 0 {
+		return
+	}
+	var keep []*ssa.Function
+	for _, f := range c.Funcs {
+		top := f
+		for top.Parent() != nil {
+			top = top.Parent()
+		}
+		if o := top.Object(); o != nil && dead[o] {
+			continue
+		}
+		keep = append(keep, f)
+	}
+	c.Funcs = keep
+}
+
+func loadRaw(cfg LoadCfg) (*Ctx, error) {
 	t0 := time.Now()
 	pkgs, fset, err := loadOnce(cfg, "-mod=readonly")
 	mm := "readonly"
